@@ -205,7 +205,7 @@ func rulesC13(c *Ctx) {
 					return false
 				}
 				call, ok := unparen(as.Rhs[0]).(*ast.CallExpr)
-				if !ok || len(call.Args) != 2 {
+				if !ok || len(call.Args) < 2 {
 					return false
 				}
 				id, ok := unparen(call.Fun).(*ast.Ident)
@@ -218,7 +218,7 @@ func rulesC13(c *Ctx) {
 		// the announcement must not look at the allocation before knowing it was created
 		for _, call := range p.callsIn(fn, "scheduler.PartitionContext.UpdateAllocation") {
 			st := p.StateAt(fn, call)
-			nonNil := len(call.Args) == 1 && p.Holds(st, p.NilAtom(false, func(t Term) bool { return p.Same(t, T(call.Args[0], st)) }))
+			nonNil := len(call.Args) >= 1 && p.Holds(st, p.NilAtom(false, func(t Term) bool { return p.Same(t, T(call.Args[0], st)) }))
 			c.Check("C13.e", "UpdateAllocation only receives a converted allocation", call, nonNil, "UpdateAllocation(alloc) is reached with a possibly nil conversion result: UpdateAllocation ignores nil without an error, so the invalid item is dropped silently")
 		}
 	}
